@@ -1,6 +1,7 @@
 (* Lemmas about Model/Cross.v *)
 From Coq Require Import List Arith Lia PeanoNat Bool.
-From TV Require Import Num.Ops Lin.Tab Model.Cross Proofs.CrossIdx Proofs.CrossGeo.
+From TV Require Import Num.Ops Lin.Tab Model.Cross Proofs.CrossIdx Proofs.CrossGeo Proofs.CrossInvA Proofs.CrossInvB
+  Proofs.CrossInvC.
 Import ListNotations.
 
 Section CrossArgs.
@@ -69,3 +70,243 @@ Proof.
   intros H; injection H as <-. destruct G as (_ & _ & _ & _ & G). rewrite Epc in G. exact G.
 Qed.
 End CrossArgs.
+
+(* ------------------------------------------------------------------------------------------------------------
+   The contract of property C06, read off the joint invariant (Proofs/CrossInvC.v: Inv) at every reachable state
+   ("anytime": after any number of steps, also of a run that is cut by the fuel) and at every exit. *)
+Section CrossRun.
+Context {T : Type} (K : ops T) {P : Type}.
+Variable isinf : T -> bool.
+Variable f : nat -> rows -> option (list T).
+Variable cb : option (nat -> bool).
+Variable pones : P.
+Variable pdotL pdotR : P -> P -> P.
+Variable pvals : nat -> nat -> nat -> list T -> P.
+Variable pick : nat -> bool -> nat -> nat -> nat -> P -> nat -> nat -> list nat.
+Variable pcoreG pfacR : bool -> nat -> nat -> nat -> P -> list nat -> P.
+Variable erank : nat -> list (@mcore P) -> T.
+Variable accuracy : nat -> list (@mcore P) -> list (@mcore P) -> T.
+Variable accdata : nat -> list (@mcore P) -> T.
+Variable C : @cfg T P.
+Hypothesis HY0 : Y0_ok pones C.
+Hypothesis Hpick : pick_ok pick.
+
+Notation crossm := (cross_m K isinf f cb pones pdotL pdotR pvals pick pcoreG pfacR erank accuracy accdata C).
+Notation stepm := (step K isinf f cb pones pdotL pdotR pvals pick pcoreG pfacR erank accuracy accdata C).
+Notation runm := (run K isinf f cb pones pdotL pdotR pvals pick pcoreG pfacR erank accuracy accdata C).
+Notation initm := (init K pones erank C).
+Notation invm := (Inv K isinf cb pones accdata C).
+Notation hitm := (hit K isinf).
+Notation accd := (accdata_m K accdata C).
+
+(* the states the theorems speak about: reached from the initial state by any number of steps *)
+Definition reach (s : @st T P) : Prop := exists k, s = iterate stepm k initm.
+
+Lemma reach_inv s : reach s -> invm s.
+Proof.
+  intros (k & ->). apply (inv_steps K isinf f cb pones pdotL pdotR pvals pick pcoreG pfacR erank accuracy accdata C HY0 Hpick).
+Qed.
+
+Lemma cross_ok_reach fuel s : crossm fuel = Ok s -> reach s /\ s_pc s = Done.
+Proof.
+  unfold cross_m. destruct (args_ok C); [|discriminate].
+  destruct (s_pc (runm fuel)) eqn:E; [discriminate|]. intros H. injection H as <-. split; [|exact E].
+  exists (2 * d C + fuel * (2 * d C)).
+  apply (run_steps K isinf f cb pones pdotL pdotR pvals pick pcoreG pfacR erank accuracy accdata C).
+Qed.
+
+(* ---- index domain *)
+Definition requests_ok (c : @cnt T) : Prop :=
+  Forall (fun e => rows_ok (ns C) (ev_I e)) (k_log c) /\
+  Forall (fun q => fst q <> [] /\ NoDup (fst q) /\ Forall (fun r => Forall2 lt r (ns C)) (fst q)) (fcalls c).
+
+Lemma requests_in_domain_anytime s : reach s -> requests_ok (sK s).
+Proof.
+  intros R. pose proof (inv_dom _ _ _ _ _ _ _ (reach_inv s R)) as HD. split.
+  - unfold dom in HD. rewrite Forall_forall in *. intros e He. destruct (HD e He) as (A & _). exact A.
+  - rewrite fcalls_lcalls. apply dom_calls. exact HD.
+Qed.
+Lemma requests_in_domain fuel s : crossm fuel = Ok s -> requests_ok (sK s).
+Proof. intros H. apply requests_in_domain_anytime. apply (cross_ok_reach fuel s H). Qed.
+
+(* ---- budget and counters *)
+Definition budget_ok (c : @cnt T) : Prop :=
+  k_m c = length (evald (fcalls c)) /\ k_nf c = length (fcalls c) /\ k_mc c = hits (k_log c) /\
+  (forall mm, m_max C = Some mm -> k_m c <= mm).
+
+Lemma budget_anytime s : reach s -> budget_ok (sK s).
+Proof. intros R. exact (inv_base _ _ _ _ _ _ _ (reach_inv s R)). Qed.
+Lemma budget fuel s : crossm fuel = Ok s -> budget_ok (sK s).
+Proof. intros H. apply budget_anytime. apply (cross_ok_reach fuel s H). Qed.
+
+Definition nocache_ok (c : @cnt T) : Prop :=
+  k_cache c = None /\ k_mc c = 0 /\ Forall (fun e => ev_new e = ev_I e /\ ev_out e <> Skipped) (k_log c).
+
+Lemma budget_nocache_anytime s : c_cache C = None -> reach s -> nocache_ok (sK s).
+Proof.
+  intros Ec R. pose proof (reach_inv s R) as I.
+  destruct (inv_nc _ _ _ _ _ _ _ I Ec) as (A & B). destruct (inv_base _ _ _ _ _ _ _ I) as (_ & _ & D & _).
+  split; [exact A|]. split; [|exact B]. rewrite D. apply acc_nc_hits. exact B.
+Qed.
+Lemma budget_nocache fuel s : c_cache C = None -> crossm fuel = Ok s -> nocache_ok (sK s).
+Proof. intros Ec H. apply budget_nocache_anytime; auto. apply (cross_ok_reach fuel s H). Qed.
+
+Section WithCache.
+Hypothesis Hlen : forall k I y, f k I = Some y -> length y = length I.
+Variable ch0 : @cachet T.
+Hypothesis Hch : c_cache C = Some ch0.
+
+Definition cache_ok (c : @cnt T) : Prop :=
+  exists ch, k_cache c = Some ch /\
+    log_split ch0 (k_log c) /\
+    NoDup (evald (fcalls c)) /\ (forall i, In i (evald (fcalls c)) -> cmem i ch0 = false) /\
+    (forall i, cmem i ch = cmem i ch0 || rmem i (evald (fcalls c))) /\
+    (forall i, cmem i ch0 = true -> cget0 K i ch = cget0 K i ch0) /\
+    (forall I y, In (I, Some y) (fcalls c) -> forall k, k < length I -> cget0 K (nth k I []) ch = nth k y (o0 K)).
+
+Lemma budget_cache_anytime s : reach s -> cache_ok (sK s).
+Proof.
+  intros R. pose proof (reach_inv s R) as I. destruct R as (k & ->).
+  destruct (acc_cache_steps K isinf f cb pones pdotL pdotR pvals pick pcoreG pfacR erank accuracy accdata C
+              HY0 Hpick Hlen ch0 Hch k) as ((ch & A & B & D) & V).
+  destruct (V ch A) as (V1 & V2). exists ch. split; [exact A|]. split; [exact D|].
+  assert (HN : Forall (fun e : @ev T => NoDup (ev_I e)) (k_log (sK (iterate stepm k initm)))).
+  { pose proof (inv_dom _ _ _ _ _ _ _ I) as HD. unfold dom in HD. rewrite Forall_forall in *.
+    intros e He. destruct (HD e He) as ((_ & N & _) & _). exact N. }
+  destruct (log_split_nodup ch0 _ D HN) as (N1 & N2). rewrite fcalls_lcalls.
+  split; [exact N1|]. split; [exact N2|]. split; [exact B|]. split; [exact V1|exact V2].
+Qed.
+Lemma budget_cache fuel s : crossm fuel = Ok s -> cache_ok (sK s).
+Proof. intros H. apply budget_cache_anytime. apply (cross_ok_reach fuel s H). Qed.
+End WithCache.
+
+(* ---- stop contract *)
+Definition all_good (l : list (@ev T)) : Prop := Forall (fun e => ev_good e = true) l.
+
+Definition stop_ok (s : @st T P) : Prop :=
+  let c := sK s in
+  exists r, k_stop c = Some r /\
+  match r with
+  | Sm => exists mm e l, m_max C = Some mm /\ k_log c = e :: l /\ ev_out e = Refused /\
+                         mm < k_m c + length (ev_new e) /\ all_good l
+  | Sfunc => exists e l, k_log c = e :: l /\ ev_out e = Called None /\ all_good l /\
+                         (forall mm, m_max C = Some mm -> k_m c + length (ev_new e) <= mm)
+  | Se => hitm (s_e s) (c_e C) = true \/ (s_nswp s = 0 /\ hitm (minus1 K) (c_e C) = true)
+  | Sevld => hitm (s_evld s) (c_evld C) = true \/
+             (s_nswp s = 0 /\ hitm (accd 0 (sYold s)) (c_evld C) = true)
+  | Snswp => c_nswp C = Some (s_nswp s)
+  | Scb => exists g, cb = Some g /\ g (s_nswp s) = true /\ conv C c = false
+  | Sconv => conv C c = true
+  end.
+
+Lemma stop_contract fuel s : crossm fuel = Ok s -> stop_ok s.
+Proof.
+  intros H. destruct (cross_ok_reach fuel s H) as (R & D).
+  pose proof (inv_ctl _ _ _ _ _ _ _ (reach_inv s R)) as Ct.
+  unfold stop_ok. cbv zeta. destruct (k_stop (sK s)) as [r|] eqn:Es.
+  2:{ exfalso. exact (ctl_done _ _ _ _ _ _ Ct D Es). }
+  exists r. split; [reflexivity|].
+  pose proof (ctl_head _ _ _ _ _ _ Ct) as Hh. unfold head_ok in Hh. cbv zeta in Hh. rewrite Es in Hh.
+  destruct r.
+  - destruct (k_log (sK s)) as [|e l]; [destruct Hh as [A _]; congruence|]. destruct Hh as (G & Hh).
+    destruct (ev_out e) as [| |[y|]] eqn:Eo; try (destruct Hh as [A _]; congruence).
+    destruct Hh as (_ & _ & Ov). unfold over in Ov. destruct (m_max C) as [mm|] eqn:Em; [|discriminate].
+    apply Nat.ltb_lt in Ov. exists mm, e, l. auto.
+  - destruct (k_log (sK s)) as [|e l]; [destruct Hh as [_ A]; congruence|]. destruct Hh as (G & Hh).
+    destruct (ev_out e) as [| |[y|]] eqn:Eo; try (destruct Hh as [A B]; congruence).
+    destruct Hh as (_ & _ & Ov). exists e, l. split; [auto|]. split; [auto|]. split; [auto|].
+    intros mm Em. unfold over in Ov. rewrite Em in Ov. now apply Nat.ltb_ge in Ov.
+  - destruct (ctl_e _ _ _ _ _ _ Ct Es) as [[_ A]|A]; auto.
+  - destruct (ctl_evld _ _ _ _ _ _ Ct Es) as [[_ A]|A]; auto.
+  - exact (ctl_nswp _ _ _ _ _ _ Ct Es).
+  - destruct (ctl_cb _ _ _ _ _ _ Ct Es) as (_ & A). exact A.
+  - destruct (ctl_conv _ _ _ _ _ _ Ct Es) as (_ & A). exact A.
+Qed.
+
+(* with an order in which 0 <= -1 is false (floats, Z, Q), "e" cannot be pending from the pre-iteration *)
+Lemma stop_e fuel s : oleb K (o0 K) (minus1 K) = false ->
+  crossm fuel = Ok s -> k_stop (sK s) = Some Se -> hitm (s_e s) (c_e C) = true.
+Proof.
+  intros Hneg H Es. destruct (stop_contract fuel s H) as (r & Er & Hr). rewrite Es in Er. injection Er as <-.
+  destruct Hr as [A|[_ A]]; [exact A|]. unfold hit, tle in A. destruct (c_e C); [|discriminate].
+  rewrite Hneg in A. discriminate.
+Qed.
+
+Lemma hit_spec v thr : hitm v thr = true ->
+  exists t, thr = Some t /\ oleb K (o0 K) v = true /\ oleb K v t = true /\ isinf v = false.
+Proof.
+  unfold hit, tle. destruct thr as [t|]; [|discriminate]. intros H.
+  apply andb_true_iff in H as [H H3]. apply andb_true_iff in H as [H1 H2]. apply negb_true_iff in H3. eauto.
+Qed.
+
+(* the shape of the log: only the newest request can be a refusal / a None; "func" and "m" are reported exactly then *)
+Definition log_shape (c : @cnt T) : Prop :=
+  match k_log c with
+  | [] => k_stop c <> Some Sm /\ k_stop c <> Some Sfunc
+  | e :: l => all_good l /\
+      (k_stop c = Some Sfunc <-> ev_out e = Called None) /\ (k_stop c = Some Sm <-> ev_out e = Refused)
+  end.
+Lemma stop_log_shape s : reach s -> log_shape (sK s).
+Proof.
+  intros R. pose proof (ctl_head _ _ _ _ _ _ (inv_ctl _ _ _ _ _ _ _ (reach_inv s R))) as Hh.
+  unfold head_ok in Hh. cbv zeta in Hh. unfold log_shape. destruct (k_log (sK s)) as [|e l]; [exact Hh|].
+  destruct Hh as (G & Hh). split; [exact G|].
+  destruct (ev_out e) as [| |[y|]].
+  - destruct Hh as (A & _). rewrite A. split; split; congruence.
+  - destruct Hh as (A & B). split; split; congruence.
+  - destruct Hh as (A & B). split; split; congruence.
+  - destruct Hh as (A & _). rewrite A. split; split; congruence.
+Qed.
+
+(* priority of the criteria in _info_appr (e_vld > e > nswp): after at least one sweep "e" is reported only when the
+   e_vld criterion is not met by the reported value, "nswp" only when neither e nor e_vld is met *)
+Lemma stop_priority fuel s : crossm fuel = Ok s -> 1 <= s_nswp s ->
+  (k_stop (sK s) = Some Se -> hitm (s_evld s) (c_evld C) = false) /\
+  (k_stop (sK s) = Some Snswp -> hitm (s_e s) (c_e C) = false /\ hitm (s_evld s) (c_evld C) = false).
+Proof.
+  intros H. destruct (cross_ok_reach fuel s H) as (R & D).
+  exact (ctl_prio _ _ _ _ _ _ (inv_ctl _ _ _ _ _ _ _ (reach_inv s R))).
+Qed.
+
+(* everything the objective was ever asked for (also in a call that returned None) fits into the budget *)
+Definition asked (c : @cnt T) : rows := flat_map fst (fcalls c).
+Lemma asked_bound_anytime s mm : reach s -> m_max C = Some mm -> length (asked (sK s)) <= mm.
+Proof.
+  intros R Em. pose proof (reach_inv s R) as I.
+  pose proof (ctl_head _ _ _ _ _ _ (inv_ctl _ _ _ _ _ _ _ I)) as Hh.
+  destruct (inv_base _ _ _ _ _ _ _ I) as (Hm & _ & _ & Hb). specialize (Hb mm Em).
+  unfold head_ok in Hh. cbv zeta in Hh. unfold asked. rewrite fcalls_lcalls. rewrite Hm in *.
+  destruct (k_log (sK s)) as [|e l]; [simpl; lia|]. destruct Hh as (G & Hh).
+  rewrite evald_cons, app_length in *. rewrite lcalls_cons, flat_map_app, app_length. pose proof (lcalls_good l G) as HG.
+  unfold rows in *. rewrite HG.
+  unfold call_of, ev_eval in *. destruct (ev_out e) as [| |[y|]]; cbn [flat_map fst length app] in *;
+    rewrite ?app_nil_r; try lia.
+  destruct Hh as (_ & _ & Ov). unfold over in Ov. rewrite Em in Ov. apply Nat.ltb_ge in Ov. lia.
+Qed.
+
+(* never more sweeps than nswp *)
+Lemma nswp_bound s t : reach s -> c_nswp C = Some t -> s_nswp s <= t.
+Proof. intros R Et. exact (ctl_nswp_le _ _ _ _ _ _ (inv_ctl _ _ _ _ _ _ _ (reach_inv s R)) t Et). Qed.
+
+(* ---- termination *)
+Lemma done_ok fuel : args_ok C = true -> s_pc (runm fuel) = Done -> exists s, crossm fuel = Ok s.
+Proof. intros A D. unfold cross_m. rewrite A, D. eauto. Qed.
+
+Lemma terminates_nswp_ok t fuel : args_ok C = true -> c_nswp C = Some t -> t < fuel -> exists s, crossm fuel = Ok s.
+Proof.
+  intros A Et Hf. apply done_ok; auto.
+  apply (terminates_nswp K isinf f cb pones pdotL pdotR pvals pick pcoreG pfacR erank accuracy accdata C HY0 Hpick t); auto.
+Qed.
+Lemma terminates_m_ok mm fuel :
+  args_ok C = true -> m_max C = Some mm -> (c_scale C + 1) * mm < fuel -> exists s, crossm fuel = Ok s.
+Proof.
+  intros A Em Hf. apply done_ok; auto.
+  apply (terminates_m K isinf f cb pones pdotL pdotR pvals pick pcoreG pfacR erank accuracy accdata C HY0 Hpick mm); auto.
+Qed.
+Lemma terminates_m_nocache_ok mm fuel :
+  args_ok C = true -> c_cache C = None -> m_max C = Some mm -> mm < fuel -> exists s, crossm fuel = Ok s.
+Proof.
+  intros A Ec Em Hf. apply done_ok; auto.
+  apply (terminates_m_nc K isinf f cb pones pdotL pdotR pvals pick pcoreG pfacR erank accuracy accdata C HY0 Hpick mm); auto.
+Qed.
+End CrossRun.
